@@ -80,10 +80,10 @@ def generate(plan) -> None:
     k["p_dup"] = 0.0 if ff else r.choice([0.0, 0.1, 0.3])
     k["p_noise"] = 0.0 if ff else r.choice([0.1, 0.3, 0.6])
     kinds = ["30C9_arr", "30C9_rp", "2309_arr", "2309_rp", "2349", "000A_arr", "000A_rp", "12B0", "0004", "2E04",
-             "trv_30C9", "trv_3150", "trv_12B0", "trv_2309", "thm_30C9", "bdr_0008"]
+             "trv_30C9", "trv_3150", "trv_12B0", "trv_2309", "thm_30C9", "bdr_0008", "3150_fc", "3150_fc"]
     if k["dhw"]:
         kinds += ["1260", "10A0", "1F41", "dhw_1260"]
-    noise = ["rq", "w_2309", "foreign_30C9", "foreign_2309", "other_trv", "w_2349", "rq_2349", "foreign_000A"]
+    noise = ["rq", "w_2309", "foreign_30C9", "foreign_2309", "other_trv", "w_2349", "rq_2349", "foreign_000A", "3150_zone", "3150_zone"]
     ops = plan.d["ops"]
     ADV = [5, 60, 100, 350, 357, 361, 719, 724, 1000, 1195, 1205, 1795, 1801, 2402, 2410, 3599, 3605, 7200, 7206,
            14400, 28810, 86400, 172810]
@@ -173,6 +173,7 @@ async def run(ctx) -> None:
         d = gwy.device_by_id.get(bdr)
         if d is not None:
             rd[("dev", bdr, "relay_demand")] = lambda d=d: d.relay_demand
+        rd[("tcs", "", "heat_demand")] = lambda: tcs.heat_demand
         rd[("tcs", "", "system_mode")] = lambda: (tcs.system_mode or {}).get("system_mode") if tcs.system_mode is not None else None
         if k("dhw") and tcs.dhw is not None:
             dh = tcs.dhw
@@ -295,6 +296,11 @@ async def run(ctx) -> None:
             m = f"{counter[0] % 8:02X}"
             frame = f"{a} 2E04 008 {m}FFFFFFFFFFFF00"
             ups = [(("tcs", "", "system_mode"), MODES_2E04[m])]
+        elif kind == "3150_fc":
+            counter[0] += 1
+            d = (counter[0] * 3) % 201
+            frame = f" I --- {CTL} --:------ {CTL} 3150 002 FC{d:02X}"
+            ups = [(("tcs", "", "heat_demand"), d / 200)]
         elif kind == "1260":
             v = fresh_val(1000, 7000)
             frame = f"{rp} 1260 003 00{hx(v)}"
@@ -360,6 +366,7 @@ async def run(ctx) -> None:
             "foreign_2309": f" I --- {CTL2} --:------ {CTL2} 2309 006 {z}{hx(v)}{other}{hx(v + 1)}",
             "foreign_000A": f" I --- {CTL2} --:------ {CTL2} 000A 012 {z}1001F4{hx(v)}{other}1001F4{hx(v + 1)}",
             "other_trv": f" I --- 04:199999 --:------ 04:199999 30C9 003 00{hx(v)}",
+            "3150_zone": f" I --- {CTL} --:------ {CTL} 3150 002 {z}{v % 201:02X}",  # the controller's per-zone demand: not the system's
         }[kind]
         if kind.startswith(("rq", "w_")):  # what the gateway itself transmitted comes back as an echo
             hub.rx_line(ser, fr.replace("18:000730", GID), rssi="000")
